@@ -586,12 +586,37 @@ func c14(r *core.Run) {
 			o.Fail(p.Pos(pick.Pos()), "no selection call follows the health tests")
 			return
 		}
-		exhausted := core.Not(core.Cmp(token.LSS, func(v ssa.Value) bool { _, ok := v.(*ssa.Phi); return ok }, func(v ssa.Value) bool { _, ok := core.ConstInt(v); return ok }))
+		// "tries used up": the edge leaving the loop at a test of the loop counter (a φ) against a constant,
+		// whichever way the counter runs and the comparison is spelled
+		var exhausted []core.Edge
+		for _, b := range pick.Blocks {
+			iff, ok := b.Instrs[len(b.Instrs)-1].(*ssa.If)
+			if !ok {
+				continue
+			}
+			cmp, ok := iff.Cond.(*ssa.BinOp)
+			if !ok {
+				continue
+			}
+			_, xPhi := cmp.X.(*ssa.Phi)
+			_, yPhi := cmp.Y.(*ssa.Phi)
+			_, xC := core.ConstInt(cmp.X)
+			_, yC := core.ConstInt(cmp.Y)
+			if !(xPhi && yC) && !(yPhi && xC) {
+				continue
+			}
+			for _, s := range b.Succs {
+				if _, back := core.Reach(core.Q{From: []core.At{core.Head(s)}, Target: core.Is(iff)}); !back {
+					exhausted = append(exhausted, core.Edge{From: b, To: s})
+				}
+			}
+		}
 		recv := map[ssa.Value]bool{}
 		for _, h := range hs {
 			h := h
 			recv[core.Forward(h.Common().Args[0])] = true
-			if w := core.Requires(pick, core.Is(after...), exhausted, core.BoolVal(func(v ssa.Value) bool { return v == h.Value() })); w != nil {
+			healthyEdges, _ := core.EdgesOf(pick, core.BoolVal(func(v ssa.Value) bool { return v == h.Value() }))
+			if w, _ := core.Reach(core.Q{From: []core.At{core.Entry(pick)}, Target: core.Is(after...), Cut: core.CutSet(exhausted, healthyEdges)}); w != nil {
 				o.Fail(p.InstrPos(h), "the retry loop can be left before the tries are used up although this candidate is unhealthy")
 			}
 		}
